@@ -722,11 +722,11 @@ func gen(g *hx.Gen) {
 			es = append(es, edge{V: n - 1, U: n - 2})
 			es = dedup(n, es)
 			enc := codecobs.SpecGraph6Encode(n, es, 0)
-			emit('g', enc)
-			emit('g', enc[:len(enc)-1])
+			keep('g', enc)
+			keep('g', enc[:len(enc)-1])
 			m := append([]byte(nil), enc...)
 			m[len(m)-1] ^= 2
-			emit('g', m)
+			keep('g', m)
 			m = append([]byte(nil), enc...)
 			m[len(m)/2] ^= 0x80
 			emit('g', m)
@@ -795,6 +795,16 @@ func gen(g *hx.Gen) {
 		}
 		es := randEdges(r, n, d[0], d[1])
 		keep('s', foreignSparse6(r, n, es))
+	}
+	// small valid and nearly valid graph6 strings for the sequences
+	for i := 0; i < g.Pick(60, 600); i++ {
+		n := r.Range(0, 14)
+		d := dens[r.Intn(len(dens))]
+		enc := codecobs.SpecGraph6Encode(n, randEdges(r, n, d[0], d[1]), []int{0, 0, 0, 4, 8}[r.Intn(5)])
+		keep('g', enc)
+		if len(enc) > 1 && r.Bool() {
+			keep('g', enc[:len(enc)-1])
+		}
 	}
 	// (6),(8) sequences in one process: results held across later calls (sizes going down and up,
 	// errors in between, the same string twice)
